@@ -8,12 +8,14 @@ from .sym import SV, St, Untranslatable, NATIVE, Outcome
 from .expr import Frame
 
 
-def assigned_names(stmts) -> set:
+def assigned_names(stmts, env=None) -> set:
     out = set()
+    direct = set()
     for s in stmts:
         for n in ast.walk(s):
             if isinstance(n, ast.Name) and isinstance(n.ctx, (ast.Store, ast.Del)):
                 out.add(n.id)
+                direct.add(n.id)
             elif isinstance(n, ast.Call) and isinstance(n.func, ast.Attribute) and isinstance(n.func.value, ast.Name):
                 from .apply import MUTATORS
                 if n.func.attr in MUTATORS:
@@ -32,6 +34,12 @@ def assigned_names(stmts) -> set:
                         b = b.value
                     if isinstance(b, ast.Name):
                         out.add(b.id)
+    if env is not None:
+        # a method call x.remove(...) mutates x only when x is a container, not when x is a heap object
+        for n in list(out - direct):
+            x = env.get(n)
+            if x is not None and (x.pt.startswith("obj:") or x.pt in ("class", "tlocal", "pyfunc")):
+                out.discard(n)
     return out
 
 
@@ -420,7 +428,7 @@ class StmtMixin:
     def loop_generic(self, s, st, fr, inv, ordinal, kind, src=None):
         v = self.voc
         body = s.body
-        names = assigned_names(body)
+        names = assigned_names(body, st.env)
         if kind == "for":
             names |= {n.id for n in ast.walk(s.target) if isinstance(n, ast.Name)}
         attrs = assigned_attrs(body) | self.callee_modifies(body, fr)
